@@ -295,6 +295,26 @@ static void gen_scenario_kv(int kind, int variant)
       SCN_TOK(RK_GETHOSTBYNAME, "c18", 1, 2000);
       app_tok[ti].family = AF_UNSPEC;
       break;
+    case 20: /* enough concurrent requests to grow the query tables twice, more arriving while they wait */
+    case 21: /* the same with one query per socket: the socket tables grow too */
+      {
+        int q;
+        sim_srv[app_cfg.srv_cfg[0]].delay_min_ms = sim_srv[app_cfg.srv_cfg[0]].delay_max_ms = 40;
+        if (kind == 21) {
+          app_cfg.udp_max_queries = 1;
+        }
+        for (q = 0; q < 14; q++) {
+          char nm[40];
+          snprintf(nm, sizeof(nm), "q%d-%d.example.com", q, kind);
+          SCN_TOK(q % 3 == 0 ? RK_QUERY_DNSREC : (q % 3 == 1 ? RK_QUERY : RK_SEND_DNSREC), nm, 1, 0);
+        }
+        for (q = 14; q < 28; q++) {
+          char nm[40];
+          snprintf(nm, sizeof(nm), "q%d-%d.example.com", q, kind);
+          SCN_TOK(RK_QUERY_DNSREC, nm, q % 2 ? 1 : 28, 10000);
+        }
+      }
+      break;
     default: /* 19: many options at init, answers with many records and a CNAME chain */
       app_cfg.local_bind      = 1;
       app_cfg.udp_max_queries = 2;
